@@ -26,7 +26,24 @@ KINDS = {
     # a REGISTER named like the memory space m (registers and memories are separate name spaces)
     19: dict(rd=[], wr=["m"], ld=[], st=[], memorder=False, special=False, jk="none", len=4),
     20: dict(rd=["m"], wr=["c"], ld=[], st=[], memorder=False, special=False, jk="none", len=4),
+    # one instruction storing TWICE into the same memory space (store pair / push multiple): the same abstract
+    # instructions as 8, 7, 16 (Deps reads the stores as a set), so TLC's histories for those apply unchanged
+    21: dict(rd=[], wr=[], ld=[], st=["m", "m"], memorder=False, special=False, jk="none", len=4),
+    22: dict(rd=["a"], wr=[], ld=[], st=["m", "m"], memorder=False, special=False, jk="none", len=4),
+    23: dict(rd=["c"], wr=[], ld=[], st=["n", "n"], memorder=False, special=False, jk="none", len=2),
 }
+DOUBLE = {8: 21, 7: 22, 16: 23}
+
+
+def double_stores(hs):
+    """copies of the histories containing a plain store, with every such store replaced by its double-store twin"""
+    out = []
+    for h in hs:
+        if any(k in DOUBLE for k in h["kinds"]):
+            out.append(dict(h, kinds=[DOUBLE.get(k, k) for k in h["kinds"]]))
+    return out
+
+
 SAMEKEY = [1, 6, 7, 8, 12, 19, 20]      # small alphabet around the shared key
 BASES = [[0, 16, 0, 0, 0, 0, 0, 0], [0, 0, 0, 0, 1, 0, 0, 0], [0, 240, 255, 255, 255, 255, 255, 127], [0, 0, 0, 0, 0, 0, 0, 240]]
 
@@ -116,6 +133,7 @@ class C06(DepsCheck):
         hs = self.histories(3, ALLK, "C06-gen") + self.histories(3, SAMEKEY, "C06-genk")
         if tier == "thorough":
             hs += self.histories(4, [1, 2, 3, 6, 7, 9, 10, 12, 13, 14], "C06-gen4")
+        hs += double_stores(hs)
         self.exhaustive = True
         gs = []
         for i, h in enumerate(hs):
@@ -146,6 +164,7 @@ class C07(DepsCheck):
         hs = self.histories(3, ALLK, "C07-gen") + self.histories(3, SAMEKEY, "C07-genk")
         if tier == "thorough":
             hs += self.histories(4, [1, 2, 3, 6, 7, 9, 10, 12, 13, 14], "C07-gen4")
+        hs += double_stores(hs)[::2 if tier == "quick" else 1]
         gs = []
         # single blocks: replay + all (from,to) probes including invalid ones
         sel = hs if tier == "thorough" else [h for i, h in enumerate(hs) if i % 3 == 0]
